@@ -433,7 +433,7 @@ impl<'a, T> SomeTable<'a> for ExtendedStateTable<'a, T> {
     }
 }
 
-pub type ExtendedStateTableU16<'a> = ExtendedStateTable<'a, u16>;
+pub type ExtendedStateTableU16<'a> = ExtendedStateTable<'a, BigEndian<u16>>;
 
 #[cfg(test)]
 mod tests {
